@@ -14,7 +14,7 @@ for f in glob.glob(f"{w}/tests/seeded_demo.rs") + glob.glob(f"{w}/examples/seede
     if os.path.isfile(f) and os.path.getsize(f) < 200000 and not f.endswith(".so"):
         shutil.copy(f, f"{d}/demo/{rel}")
         demos.append(rel)
-vlog = f"/tmp/mut/{pid}.verify.log"
+vlog = os.environ.get("VLOG", f"/tmp/mut/{pid}.verify.log")
 verify = open(vlog).read() if os.path.exists(vlog) else ""
 meta = {
     "property": pid,
